@@ -76,7 +76,7 @@ var c17FontCfg = map[string]interface{}{"defaultFontId": "font1", "fonts": map[s
 func c17NativeCompile(w *Worker, src string, optimize bool) (NativeResp, bool) {
 	cfgPath := fmt.Sprintf("%s/c17fonts-%d.json", w.Env.TmpDir, w.ID)
 	writeJSON(cfgPath, c17FontCfg)
-	resp, timedOut, err := w.N.Do(NativeReq{Op: "compile", Src: src, Optimize: optimize, FontPath: cfgPath, Switches: map[string]string{"K": "B"}}, 10*time.Second)
+	resp, timedOut, err := w.N.DoPatient(NativeReq{Op: "compile", Src: src, Optimize: optimize, FontPath: cfgPath, Switches: map[string]string{"K": "B"}}, 10*time.Second)
 	return resp, err == nil && !timedOut
 }
 
